@@ -29,6 +29,7 @@ Theorem x_walker_shape_ok :
   x_walker_noclobber_condition = "config.no_clobber&&target.symlink_metadata().is_ok()"%string /\
   x_walker_iterator = (["WalkDir::new(&source)";
    "follow_links(config.dereference)";
+   "follow_root_links(config.dereference)";
    "into_iter()";
    "filter_entry(|e|ignore_filter(e,&gitignore))"])%string /\
   x_walker_entry_prelude = (["letepath=entry?.into_path();";
